@@ -575,14 +575,20 @@ class Engine:
         return vstr(self.reg.render(v))
 
     def ev_Attribute(self, node, st):
-        if (isinstance(node.value, ast.Name) and node.value.id not in st.vars and node.value.id not in self.bound and self.mod is not None
-                and node.value.id in self.mod.imports and self.mod.imports[node.value.id][1] is None and not self.spec):
-            # module.CONSTANT (e.g. os.sep): an assumed contract without parameters keyed "module.CONSTANT"
-            key = f"{self.mod.imports[node.value.id][0]}.{node.attr}"
-            c = self.reg.contracts.get(key)
-            if c is None or c.params:
-                raise OutOfSubset(f"no contract for module attribute {key} (line {node.lineno})")
-            return self.reg.apply_contract(self, c, [], {}, st, node)
+        v_ = node.value
+        if (isinstance(v_, ast.Name) and v_.id not in st.vars and v_.id not in self.bound and self.mod is not None
+                and v_.id in self.mod.imports and self.mod.imports[v_.id][1] is None):
+            key = f"{self.mod.imports[v_.id][0]}.{node.attr}"
+            mc = getattr(self.reg, "module_constants", {})
+            if key in mc:
+                # <imported module>.<CONSTANT> registered with its real value (e.g. re.DOTALL)
+                return [(st, mc[key])]
+            if not self.spec:
+                # module.CONSTANT (e.g. os.sep): an assumed contract without parameters keyed "module.CONSTANT"
+                c = self.reg.contracts.get(key)
+                if c is None or c.params:
+                    raise OutOfSubset(f"no contract for module attribute {key} (line {getattr(node, 'lineno', '?')})")
+                return self.reg.apply_contract(self, c, [], {}, st, node)
         out = []
         for s, recv in self.ev(node.value, st):
             out += self.getattr(recv, node.attr, s, node)
